@@ -1025,6 +1025,21 @@ def gauss_inverse_solve(A, B):
     return tri_solve_upper(M[:, :n], M[:, n:])
 
 
+@reg(aten._linalg_svd.default)
+def h_svd(func, args, kwargs):
+    """SVD has no rational contract; only an argument that is CONSTANT on the path (all entries constants) is decomposed, concretely"""
+    A = as_sym_arr(SH.get(args[0]))
+    for v in A.reshape(-1):
+        # an entry may be a term that the path condition forces to a constant (e.g. sqrt(1/s) * sqrt(s)): solver-validated
+        if not v.is_const() and not CTX.valid(eq_formula(v, Sym.const(float(v.c)))):
+            raise Unsupported("SVD of a symbolic matrix at " + where_am_i())
+    out = func(*args, **kwargs)
+    for o in out:
+        if isinstance(o, torch.Tensor) and o.numel():
+            SH.put(o, as_sym_arr(o.detach().double().numpy()))
+    return out
+
+
 @reg(aten.linalg_inv_ex.default)
 def h_inv(func, args, kwargs):
     A = A_(args[0])
